@@ -92,8 +92,39 @@ func chainRoot(addr ssa.Value) (root ssa.Value, rootType *types.Named, immediate
 	}
 }
 
+// ruleStagesThreadTheRequest: the result of a stage travels in the request value the stage hands back; the next stage
+// must be given THAT value. (a) the router middleware forwards the request RouteInfo returned, (b) the reflective
+// content-type stage resolves the memoised content type (which copies the request) only after — and behind — the body
+// probe, which attaches its buffered reader to the request value it was given.
+func ruleStagesThreadTheRequest(c *Ctx, rule string) {
+	p := c.P
+	nrt := p.Fn("rt/middleware.NewRouter")
+	h := c.theHandlerClosure(nrt)
+	ris := callsIn(h, "(*rt/middleware.Context).RouteInfo")
+	if len(ris) == 1 {
+		ri := ris[0].(*ssa.Call)
+		rctx := resultOf(ri, 1)
+		for _, n := range callsIn(h, "(net/http.Handler).ServeHTTP") {
+			_, a := callArgs(n.Common())
+			okR, bad := allOrigins(a[1], oIsValue(rctx))
+			c.obI(rule, n, "router-forwards-the-routed-request", okR && rctx != nil, "the next handler is given the request RouteInfo returned (its context holds the matched route: later stages find it instead of routing again)", "the request forwarded is "+describeOrigin(bad))
+		}
+	} else {
+		c.obRF(rule, h, "router-asks-route", false, "the router middleware asks for the route once", fmt.Sprintf("%d", len(ris)))
+	}
+	vct := p.Fn("(*rt/middleware.validation).contentType")
+	cts := callsIn(vct, "(*rt/middleware.Context).ContentType")
+	hbs := callsIn(vct, "rt.HasBody")
+	c.obRF(rule, vct, "content-type-stage-probes-and-resolves", len(cts) == 1 && len(hbs) == 1, "the content-type stage probes the body and resolves the memoised content type", fmt.Sprintf("%d/%d", len(hbs), len(cts)))
+	if len(cts) == 1 && len(hbs) == 1 {
+		hasBody := factBool(vOrigins(oIsValue(hbs[0].Value())), true)
+		c.obI(rule, cts[0], "content-type-resolved-after-body-probe", dominates(hbs[0], cts[0]) && guardedBy(cts[0], hbs[0], hasBody), "the memoised content type (whose request copy the later stages read) is resolved after the body probe has attached its buffered reader, and only for requests with a body", "Context.ContentType can run before / without the HasBody probe: the request copy it returns misses the probe's buffered body")
+	}
+}
+
 func runC09(c *Ctx) {
 	p := c.P
+	ruleStagesThreadTheRequest(c, "R09.4")
 	entries := c09Entries(c)
 	reach := p.Reach(entries)
 	c.info("R09.1 entry set: %d functions; request-reachable repo functions: %d", len(entries), len(reach))
@@ -575,11 +606,22 @@ func ruleR09_45(c *Ctx) {
 				}
 			}
 		}
+		// the value read — also as handed back by an accessor that is looked through (SecurityPrincipalFrom(request))
+		isRd := func(v ssa.Value) bool {
+			if v == ssa.Value(rd) {
+				return true
+			}
+			if cc := asCall(v); cc != nil && transparentCallee(cc) != nil {
+				ok, _ := allOrigins(v, oIsValue(rd))
+				return ok
+			}
+			return false
+		}
 		if hit == nil {
-			hit = factNil(vIs(rd), false) // `v != nil` style (Authorize)
+			hit = factNil(isRd, false) // `v != nil` style (Authorize)
 			hitVal = rd
 		}
-		miss := anyFact(negate(hit), factNil(vIs(rd), true)) // (nothing stored at all is a miss too)
+		miss := anyFact(negate(hit), factNil(isRd, true)) // (nothing stored at all is a miss too)
 		// R09.5 computing call only on miss
 		comps := callsIn(f, m.compute...)
 		c.obRF("R09.5", f, "computes", len(comps) == 1, "the accessor has one computing call", fmt.Sprintf("%d", len(comps)))
